@@ -227,6 +227,35 @@ def parts(tier):
         rule="all point subsets of the unit grid (exact) and of the decimal grid (1e-9) x all windows",
         bounds={"max_points": 3 if quick else 4}))
 
+    # ulp-neighbour grid: boundaries and window edges one ulp apart (a tolerant comparison is wrong here)
+    ugrid = tuple(sorted(D.ULP))
+    usets = D.interval_sets(ugrid, 2 if quick else 3)
+
+    def gen_ulp():
+        for s in usets:
+            e = D.labelled(s)
+            for a in ugrid:
+                for b in ugrid:
+                    yield (e, ugrid[0], ugrid[-1], a, b)
+
+    ps.append(InputPart(
+        "crop-intervals-ulp", gen_ulp, lambda c: _check_iv(c, False),
+        rule="interval sets and windows on the ulp-neighbour grid %s (0.1+0.2 vs 0.3, 0.1+0.7 vs 0.8): near-coincidences that "
+             "are not coincidences; exact-rational model, counts and labels strict" % (ugrid,), bounds={"oracle": "structural+1e-9"},
+        snippet=_snippet_iv))
+
+    def gen_pt_ulp():
+        for s in D.point_sets(ugrid, 3):
+            for labs in ("xyz", "xxx"):
+                p = D.labelled_points(s, labs)
+                for a in ugrid:
+                    for b in ugrid:
+                        yield (p, ugrid[0], ugrid[-1], a, b)
+
+    ps.append(InputPart("crop-points-ulp", gen_pt_ulp, lambda c: _check_pt(c, False),
+                        rule="point subsets and windows on the ulp-neighbour grid (a point one ulp outside the window is outside)",
+                        bounds={}))
+
     # Textgrid.crop: 3 tiers
     tgrid = D.unit_grid(5)
     tsets = D.interval_sets(tgrid, 2)
